@@ -646,11 +646,15 @@ Section All.
       eexists _, _, _. split; [reflexivity|]. exists l, (m ++ s ++ r). cbn. split; [rewrite <- app_assoc; reflexivity|exact Hp].
     Qed.
 
-    Theorem yank_pop_total k text :
-      hoare (fun b => wf b /\ k <= pos b /\ bd (buf b) (pos b - k)) (yank_pop k text) (fun _ b => wf b).
+    (* yank_pop checks that the text before the cursor can be the previous yank and does nothing otherwise *)
+    Theorem yank_pop_total k text : total_wf (yank_pop k text).
     Proof.
-      intros b [Hw [Hk Hbd]]. unfold yank_pop. unfold bind at 1. unfold get at 1.
-      replace (Nat.ltb (pos b) k) with false by (symmetry; apply Nat.ltb_ge; exact Hk).
+      intros b Hw. unfold yank_pop. unfold bind at 1. unfold get at 1.
+      destruct (Nat.ltb (pos b) k) eqn:Ek; [eexists _, _, _; split; [reflexivity|exact Hw]|]. apply Nat.ltb_ge in Ek.
+      destruct (is_boundary (buf b) (pos b - k)) eqn:Eb; cbn [negb]; [|eexists _, _, _; split; [reflexivity|exact Hw]].
+      assert (Hbd : bd (buf b) (pos b - k)).
+      { unfold is_boundary in Eb. destruct (bsplit (buf b) (pos b - k)) as [[l r]|] eqn:E; [|discriminate].
+        destruct (bsplit_some _ _ _ _ E) as [H1 H2]. rewrite H1, <- H2. apply bd_mid. }
       destruct (drain_wf b (pos b - k) (pos b) DForward Hbd Hw ltac:(lia)) as [m [b' [Hd [Hb' _]]]].
       unfold bind at 1. rewrite Hd. unfold bind at 1. cbn [put_pos].
       destruct (yank_total text 1 (set_pos' b' (pos b - k)) Hb') as [a [b2 [ev [Hy Hw2]]]].
@@ -1294,7 +1298,6 @@ Section All.
 
     Definition op_pre (o : lbop) (b : lb) : Prop :=
       match o with
-      | OpYankPop k _ => k <= pos b /\ bd (buf b) (pos b - k)
       | OpReplace a e _ | OpDeleteRange a e => bd (buf b) a /\ bd (buf b) e /\ a <= e
       | OpInsertStr i _ => bd (buf b) i /\ pos b <= i
       | OpUpdate s p => bd s p
@@ -1313,7 +1316,7 @@ Section All.
       { intros Hc. exact (lb_core_total_wf seg seg_concat U o Hc b Hw). }
       destruct o as [c n|s n|k s|n|n| | | | | |n|n| | | | | |w n|w n|a w n|cs n|a w n|cs n|a|n|a e s|idx s|a e|m|m|m amount d|s p|p|n];
         try (apply Hcore; reflexivity); cbn [lb_apply].
-      - destruct Hpre as [Hk Hbd]. apply (total_mapM _ _ _ (yank_pop_total k s)). repeat split; assumption.
+      - exact (total_mapM _ _ wf (yank_pop_total k s) b Hw).
       - exact (total_mapM _ _ wf transpose_chars_total b Hw).
       - exact (total_mapM _ _ wf (move_to_prev_word_total w n) b Hw).
       - exact (total_mapM _ _ wf (delete_prev_word_total w n) b Hw).
@@ -1340,7 +1343,7 @@ Section All.
     (* a whole sequence of operations that need no raw offsets: never a panic, the cursor always on a boundary *)
     Definition user_op (o : lbop) : bool :=
       match o with
-      | OpYankPop _ _ | OpReplace _ _ _ | OpDeleteRange _ _ | OpInsertStr _ _ | OpUpdate _ _ | OpSetPos _ => false
+      | OpReplace _ _ _ | OpDeleteRange _ _ | OpInsertStr _ _ | OpUpdate _ _ | OpSetPos _ => false
       | _ => true
       end.
 
